@@ -6,7 +6,7 @@ verifies under public key `k` iff it was made with the private key of `k` (crypt
 look at.  Names are DNS names, compared ASCII-case-insensitively when matched against a certificate
 (webpki) and exactly when the dialled name is looked up among the verifier's own names.
 -/
-import AnemoModel.Basic
+import AnemoModel.Gen.Tables
 namespace Anemo
 
 abbrev Key := Nat
@@ -68,6 +68,33 @@ keys (with ANY subject key, names, validity) or verbatim copies of honest certif
 their owners), and transcript signatures made with its own keys only -/
 def advCert (A : List Key) (c : Cert) : Prop := c.signer ∈ A ∨ c.signer = c.spki
 def advSig (A : List Key) (hs : HsSig) : Prop := hs.signer ∈ A
+
+/-! ### the verifiers as the SOURCE spells them (translator item `tls`) -/
+
+/-- what each recognised statement of a `verify_*_cert` function demands of the certificate -/
+def evalTlsStep (names : List Name) (dialed : Name) (pin? : Option Key) (c : Cert) : TlsStep → Bool
+  | .selfSignedAnchor => c.wellFormed                       -- parses; becomes its own trust anchor
+  | .verifyChainEd25519 => c.spkiAlg == .ed25519 && c.sigAlg == .ed25519 && c.signer == c.spki && c.validNow
+  | .parseAcceptedNames => true
+  | .certValidForAnAcceptedName => names.any (validFor c)
+  | .dialedNameIsDns => true
+  | .dialedNameIsOwn => names.contains dialed
+  | .certValidForDialedName => validFor c dialed
+  | .identityOfEndEntity => c.wellFormed && c.spkiAlg == .ed25519
+  | .pinMustMatch => (match pin? with | some p => c.spki == p | none => true)
+  | .delegateToCertVerifier => true
+
+def verifyClientCertGen (accepted : List Name) (c : Cert) : Bool :=
+  Gen.verifyClientCertGen.all (evalTlsStep accepted [] none c)
+
+def verifyServerCertGen (own : List Name) (dialed : Name) (c : Cert) : Bool :=
+  Gen.verifyServerCertGen.all (evalTlsStep own dialed none c)
+
+/-- the pinned verifier: its own steps, then (if it delegates) everything the plain one demands -/
+def verifyPinnedServerCertGen (own : List Name) (dialed : Name) (p : Key) (c : Cert) : Bool :=
+  Gen.verifyPinnedServerCertGen.all (evalTlsStep own dialed (some p) c) &&
+  Gen.verifyPinnedServerCertGen.contains .delegateToCertVerifier && verifyServerCertGen own dialed c
+
 
 /-! ### endpoints and names (C14) -/
 structure EndpointNames where
